@@ -227,6 +227,11 @@ def run(ctx, rep):
                         rep.bad("R-ASSUME-CALLERS", ik, "a safe function declares an uninitialised payload initialised: a client could read or drop slots nobody wrote", F.loc(b, t["span"]), tag)
         if seen == 0:
             rep.bad("ANCHOR-LOST", "R-ASSUME-CALLERS", "no internal call of an assume_init function found (one is expected in assume_init_slice)", None, tag)
+    # "from then on every element is destroyed exactly once together with the allocation": the last owner's release destroys
+    # the payload and gives the block back on every exit, a panicking element destructor included
+    from . import c01 as _c01
+
+    _c01.rule_destroy(ctx, rep)
     # header written before the handle exists
     c06.rule_init(ctx, rep, only=("from_header_and_uninit_slice",))
     # deprecated writers panic instead of mutating a shared value
